@@ -98,6 +98,9 @@ DetMonStep(m, E) ==
   XOnly({ CASE E.ev = "dframe" -> DFrameStep(m0, E)
             [] E.ev = "dreset" -> DResetStep(m0, E)
             [] E.ev = "dpanic" -> [m0 EXCEPT !.v = {"ANY:detector-panicked"}]
+            [] E.ev = "sstart" ->     \* what reached storage with a (re)started file: the trigger's threshold, the detector's background
+                 [m0 EXCEPT !.v = XIf(E.thresh # E.trig_thresh, "C15:recording-threshold-not-the-one-at-trigger")
+                                  \cup XIf(E.bg # E.det_bg, "C15:recording-background-not-the-one-in-force")]
             [] OTHER           -> m0
           : m0 \in {[m EXCEPT !.v = {}]} })
 =============================================================================
